@@ -4,6 +4,8 @@ import json, os
 V = os.path.dirname(os.path.dirname(os.path.abspath(__file__)))
 TECH = "TLA+ model checked with TLC; TLC-generated behaviours replayed on the real library; recorded traces validated by TLC"
 C = {
+ "C01": ("model_checking", "Handshake.tla (C01_KeyAgreement, C01_HonestSupportedSucceeds) exhaustively; honest handshakes for every supported suite x every username/password length x privilege x lookup x KG against the RAKP term algebra of Crypto.tla, keys compared and every later command verified/decrypted with the BMC-side keys; traces validated by TLC", "6 C01"),
+ "C02": ("model_checking", "Handshake.tla with the mutation alphabet (C02_OnlyIfAuthentic, C02_IncorrectPassword); every single-bit flip of the authenticated fields, every status, every other tag, every truncation of each reply replayed on the real library (also with exact-capacity receive slices); traces validated by TLC", "6 C02"),
  "C04": ("model_checking", "Console.tla: invariant C04_Authentic over every interleaving of forged/authentic replies (exhaustive, bounded); the same behaviours are replayed on the real V2Session and every recorded return is judged by TLC against the datagram it was based on", "6 C04"),
  "C09": ("model_checking", "Console.tla: C09_SeqConsecutive / C09_SessionlessNull / C09_Monotone exhaustively over calls x attempts x outcome alphabet; every real datagram's session ID and sequence number is parsed and checked by TLC (TraceConsole.tla)", "6 C09"),
  "C10": ("model_checking", "Console.tla is the reference model of the documented retry behaviour; exhaustive outcome sequences are replayed and TLC compares each real transmission and return with the model's prediction and with the property predicates", "6 C10"),
